@@ -9,9 +9,12 @@ from concurrent.futures import ThreadPoolExecutor
 
 ROOT = os.path.dirname(os.path.dirname(os.path.abspath(__file__)))
 SPEC = os.path.join(ROOT, "spec")
-WORK = os.path.join(ROOT, "work")
+# Development aid (never set by the registered commands): evaluate seeded changes against a scratch worktree of
+# /repo, with a private work / evidence directory, while /repo itself stays untouched.
+REPO = os.environ.get("VERIF_REPO_OVERRIDE", "/repo")
+WORK = os.environ.get("VERIF_WORK_OVERRIDE", os.path.join(ROOT, "work"))
 HARNESS = os.path.join(ROOT, "harness")
-EVID = os.path.join(ROOT, "evidence")
+EVID = os.path.join(ROOT, "evidence") if "VERIF_WORK_OVERRIDE" not in os.environ else os.path.join(WORK, "evidence")
 TLAJAR = "/opt/veriftools/tla/tla2tools.jar"
 CMJAR = "/opt/veriftools/tla/CommunityModules-deps.jar"
 JAVADIR = os.path.join(SPEC, "java")
@@ -58,19 +61,50 @@ def build_java():
 
 def build_harness():
     """cargo build --release of the harness; it path-depends on /repo so this always compiles /repo's current tree."""
-    lock = os.path.join(HARNESS, "Cargo.lock")
     env = dict(os.environ, CARGO_NET_OFFLINE="true")
     t0 = time.time()
-    r = subprocess.run(["cargo", "build", "--release", "--offline"], cwd=HARNESS, env=env, capture_output=True, text=True)
+    hdir = harness_dir()
+    r = subprocess.run(["cargo", "build", "--release", "--offline"], cwd=hdir, env=env, capture_output=True, text=True)
     if r.returncode != 0:
         raise ToolError("harness build failed (this is a tool error, not a verdict):\n" + r.stderr[-6000:])
     log("[build] harness built in %.1fs" % (time.time() - t0))
-    return os.path.join(HARNESS, "target", "release", "vharness")
+    return os.path.join(hdir, "target", "release", "vharness")
+
+
+def harness_dir():
+    if REPO == "/repo":
+        return HARNESS
+    # private copy of the harness sources pointing at the scratch worktree
+    alt = os.path.join(WORK, "harness-alt")
+    os.makedirs(alt, exist_ok=True)
+    for name in ("src", ".cargo"):
+        shutil.rmtree(os.path.join(alt, name), ignore_errors=True)
+        shutil.copytree(os.path.join(HARNESS, name), os.path.join(alt, name))
+    shutil.copy(os.path.join(HARNESS, "Cargo.lock"), alt)
+    txt = open(os.path.join(HARNESS, "Cargo.toml")).read().replace('path = "/repo"', 'path = "%s"' % REPO)
+    with open(os.path.join(alt, "Cargo.toml"), "w") as f:
+        f.write(txt)
+    return alt
+
+
+class HarnessHang(Exception):
+    """a call into the crate did not return within the harness watchdog's limit (data, like a panic)"""
+
+    def __init__(self, info):
+        Exception.__init__(self, str(info))
+        self.info = info
 
 
 def run_harness(args, timeout=3600, stdin=None):
-    exe = os.path.join(HARNESS, "target", "release", "vharness")
-    r = subprocess.run([exe] + [str(a) for a in args], capture_output=True, text=True, timeout=timeout, input=stdin)
+    exe = os.path.join(HARNESS if REPO == "/repo" else os.path.join(WORK, "harness-alt"), "target", "release", "vharness")
+    r = subprocess.run([exe] + [str(a) for a in args], capture_output=True, text=True, timeout=timeout, input=stdin,
+                       env=dict(os.environ, VERIF_REPO_DIR=REPO))
+    if r.returncode == 3:
+        for a in args:
+            hp = str(a) + ".hang"
+            if os.path.exists(hp):
+                raise HarnessHang(json.loads(open(hp).read()))
+        raise HarnessHang({"op": "hang", "key": "unknown"})
     if r.returncode != 0:
         raise ToolError("harness %s failed rc=%s:\n%s" % (args, r.returncode, r.stderr[-4000:]))
     return r.stdout
@@ -325,6 +359,17 @@ class Verdicts:
             print("  key=%s %s" % (key, text))
         sys.stdout.flush()
         return 1 if self.viol else 0
+
+
+def record(V, args, timeout=3600):
+    """run a harness recording; a hang of the code under test becomes a reported violation. Returns True if a trace was written."""
+    try:
+        run_harness(args, timeout=timeout)
+        return True
+    except HarnessHang as h:
+        V.add("hang/%s/%s" % (args[0], args[1]), "a call into the crate did not return within the watchdog limit: %s" % h.info,
+              {"engine": "hang", "harness_args": [str(a) for a in args], "info": h.info})
+        return False
 
 
 def write_evidence(pid, tier, level, coverage, assumptions, wall, violations):
